@@ -356,6 +356,19 @@ pub fn o_tree_suffix(prop: &str, ex: &Exec, with_remount: bool) -> V {
             push(&mut v, format!("{prop}/suffix/flush-failed"), format!("flush of handle {si}: {e:?}"));
         }
     }
+    // what the independent decoder says about links is part of the tree that the views have to agree on: the dot
+    // entries of every directory (I3) and the termination / ownership of every chain the tree is read through (I1)
+    if with_remount {
+        for (stage, d) in [("decode-after-flush", &sx.flushed), ("abandoned-image", &sx.abandoned), ("decode-after-unmount", &sx.final_decoded)] {
+            if let Some(Ok(d)) = d {
+                for f in &d.findings {
+                    if f.sig.starts_with("I3/") || f.sig == "I1/file-chain" || f.sig == "I1/dir-chain" || f.sig == "I1/owned-but-free" {
+                        push(&mut v, format!("{prop}/{stage}/link/{}", f.sig), f.msg.clone());
+                    }
+                }
+            }
+        }
+    }
     match &sx.flushed {
         Some(Ok(d)) => cmp_decoded(&format!("{prop}/decode-after-flush"), &ex.model, d, true, &mut v),
         Some(Err(e)) => push(&mut v, format!("{prop}/decode-after-flush/failed"), e.clone()),
